@@ -50,6 +50,24 @@ def local_used(b, l):
     return False
 
 
+def array_map_literal(cx, d):
+    """`[a, b, c].map(f)` as the array literal `[f(a), f(b), f(c)]` (closure applied element by element), everywhere inside d"""
+    from vpa import inline as IN
+
+    def rw(n):
+        if n[0] == 'call' and len(n) == 4 and n[1] in ('slice::map', 'array::map') and isinstance(n[2], tuple) and n[2][:2] == ('agg', 'array') and \
+                isinstance(n[3], tuple) and n[3][0] == 'closure':
+            out = []
+            for comp_ in n[2][2:]:
+                v = IN.closure_apply(cx.facts, n[3], (IN.subst(comp_[1], rw) if isinstance(comp_[1], tuple) else comp_[1],))
+                if v is None:
+                    return None
+                out.append((comp_[0], simplify(IN.subst(v, rw))))
+            return ('agg', 'array') + tuple(out)
+        return None
+    return simplify(IN.subst(d, rw)) if isinstance(d, tuple) else d
+
+
 def identify_edges_rules(cx):
     """manifold guard, boundary-map entries and face_edges of identify_edges (shared with C20: the flattening works on these tables)"""
     # ---------------------------------------------------------------- GUARD / ORDER identify_edges, unique_edges
@@ -87,6 +105,28 @@ def identify_edges_rules(cx):
             cx.ob('GUARD', f'identify_edges:boundary-entry:{show(e2["j"]) if e2 else "?"}', e2 is not None and g is not None and indep,
                   'directed edge j of the face enters the boundary map as (start -> end) exactly when the count of ITS OWN undirected key is 1 (and whatever the counts of the other two edges are)', where=s,
                   found=f'key={show(k)[:200]} guards={cx.show_guards(b, s.bb)[:3]}')
+        if len(ins) == 1 and not seen:
+            # the three copy-pasted guarded inserts as ONE loop over the face's edges zipped with their unique indices:
+            #   for (directed, &id) in face_chunk.iter().zip([i0, i1, i2].iter()) { if count[id] == 1 { insert(directed[0], directed[1]) } }
+            # zip pairs position k with position k, and the index array is [index(key(chunk[0])), index(key(chunk[1])), index(key(chunk[2]))]
+            CHK = '(itervar (call slice::chunks (call *naive_edges (param faces)) 3))'
+            IDS = f'(agg array (0 (call HashMap::index $m (call *edge_key (index {CHK} 0)))) (1 (call HashMap::index $m (call *edge_key (index {CHK} 1)))) (2 (call HashMap::index $m (call *edge_key (index {CHK} 2)))))'
+            s0 = ins[0]
+            k0, v0 = array_map_literal(cx, cx.arg(s0, 1)), array_map_literal(cx, cx.arg(s0, 2))
+            lits0 = [(array_map_literal(cx, a), pol) for a, pol in cx.guards(b, s0.bb)]
+            for fa, fb, Z in ((0, 1, f'(itervar (call Iterator::zip {CHK} {IDS}))'), (1, 0, f'(itervar (call Iterator::zip {IDS} {CHK}))')):
+                ek = match(f'(index (field {fa} {Z}) 0)', k0)
+                ev = match(f'(index (field {fa} {Z}) 1)', v0, ek) if ek else None
+                if ev is None:
+                    continue
+                own = f'(eq 1 (field 1 (index (call *unique_edges _) (field {fb} {Z}))))'
+                gz = [a for a, pol in lits0 if pol and match(own, a, ev) is not None]
+                others = [a for a, pol in lits0 if match('(eq 1 (field 1 (index (call *unique_edges _) $x)))', a) is not None and not (pol and match(own, a, ev) is not None)]
+                if gz and not others:
+                    seen = {('const', 0), ('const', 1), ('const', 2)}
+                    # retract the per-site report of the unrolled form: this site is the loop form
+                    cx.obs[:] = [o for o in cx.obs if not o.key.endswith('GUARD:identify_edges:boundary-entry:?')]
+                    cx.ob('GUARD', 'identify_edges:boundary-entry:zip-loop', True, 'each directed edge of the face, paired by position with the unique index of ITS OWN key, enters the boundary map exactly when that count is 1', where=s0)
         cx.ob('GUARD', 'identify_edges:boundary-entry:all-three', seen == {('const', 0), ('const', 1), ('const', 2)}, 'all three edges of each face are examined',
               found=str(sorted(show(x) for x in seen)))
         # face_edges[f] = unique indices of the keys of that face's own three naive edges, in order
@@ -98,6 +138,17 @@ def identify_edges_rules(cx):
                       '(2 (call HashMap::index $m (call *edge_key (index $c 2)))))', d)
             if e and match('(itervar (call slice::chunks (call *naive_edges (param faces)) 3))', e['c']):
                 okp = True
+            em = match('(call slice::map $arr $f)', d) or match('(call array::map $arr $f)', d)
+            if em is not None:
+                em = dict(em)
+                em['arr'] = array_map_literal(cx, em['arr'])
+            if em is not None:
+                # `[i0, i1, i2].map(|id| id as u32)`: the same array behind an element-wise cast
+                e = match('(agg array (0 (call HashMap::index $m (call *edge_key (index $c 0)))) (1 (call HashMap::index $m (call *edge_key (index $c 1)))) '
+                          '(2 (call HashMap::index $m (call *edge_key (index $c 2)))))', em['arr'])
+                fb_ = cx.closure_body(em['f'][1]) if isinstance(em['f'], tuple) and em['f'][0] == 'closure' else None
+                if e and fb_ is not None and match('(itervar (call slice::chunks (call *naive_edges (param faces)) 3))', e['c']) and (match('(cast _ (param 2))', cx.retval(fb_)) is not None or match('(param 2)', cx.retval(fb_)) is not None):
+                    okp = True
         cx.ob('EXPR', 'identify_edges:face_edges', okp, 'face_edges[f] = [index(key(edge0)), index(key(edge1)), index(key(edge2))] of the same face chunk, in order')
 
 
@@ -125,7 +176,13 @@ def insert_rule(cx, fname, floor):
     if b is None:
         return
     sites = b.calls('HashMap::insert')
-    cx.floor('INSERT', fname, len(sites), floor, f'HashMap::insert sites in {fname}')
+    # a site inside a loop over a three-element array literal (the copy-pasted cases of the three edges written as one loop) stands for three sites
+    eff = 0
+    for s in sites:
+        over3 = any(p and a[0] == 'is' and isinstance(a[1], tuple) and a[1][0] == 'call' and str(a[1][1]).endswith('::next') and find('(agg array (0 _) (1 _) (2 _))', a[1]) is not None
+                    for a, p in cx.guards(b, s.bb))
+        eff += 3 if over3 else 1
+    cx.floor('INSERT', fname, eff, floor, f'HashMap::insert sites in {fname}')
     # each distinct map gets one obligation (the finding is about the map, not the statement)
     bymap = {}
     for s in sites:
